@@ -28,7 +28,148 @@ const (
 	fAbsentNeg   = "C18-absent-negative-matcher-on-absent-label"
 	fBinopNext   = "C18-range-binop-pairs-next-series-after-end"
 	fStaleEnd    = "C18-instant-range-function-drops-series-ending-stale"
+	fHoltInf     = "C18-holt-winters-infinite-sample-nan"
+	fAbsentDup   = "C18-absent-label-kept-despite-second-matcher"
 )
+
+// absentDupRewrite: for selectors below absent_over_time / absent that carry, for some label, exactly one equality
+// matcher plus further non-equality matchers: today's code derives the answer's labels from the equality matchers
+// alone. Returns the expression with the non-equality matchers on those labels deleted and the metric replaced by one
+// without samples (upstream then answers with exactly the labels today's code derives).
+func absentDupRewrite(expr string) (string, bool) {
+	e, err := parser.ParseExpr(expr)
+	if err != nil {
+		return "", false
+	}
+	hit := false
+	parser.Inspect(e, func(n parser.Node, path []parser.Node) error {
+		vs, ok := n.(*parser.VectorSelector)
+		if !ok {
+			return nil
+		}
+		under := false
+		for _, p := range path {
+			if c, isCall := p.(*parser.Call); isCall && (c.Func.Name == "absent_over_time" || c.Func.Name == "absent") {
+				under = true
+			}
+		}
+		if !under {
+			return nil
+		}
+		eq, other := map[string]int{}, map[string]int{}
+		for _, m := range vs.LabelMatchers {
+			if m.Name == "__name__" {
+				continue
+			}
+			if m.Type == labels.MatchEqual {
+				eq[m.Name]++
+			} else {
+				other[m.Name]++
+			}
+		}
+		var kept []*labels.Matcher
+		for _, m := range vs.LabelMatchers {
+			if m.Name != "__name__" && m.Type != labels.MatchEqual && eq[m.Name] == 1 && other[m.Name] > 0 {
+				hit = true
+				continue
+			}
+			if m.Name == "__name__" {
+				kept = append(kept, labels.MustNewMatcher(labels.MatchEqual, "__name__", nosuchMetric))
+				continue
+			}
+			kept = append(kept, m)
+		}
+		vs.LabelMatchers = kept
+		vs.Name = nosuchMetric
+		return nil
+	})
+	return e.String(), hit
+}
+
+// missingPoints: sv is up with some points (or whole series) missing and nothing else different; returns the
+// timestamps of the missing points (nil if the shape is different or nothing is missing)
+func missingPoints(up, sv result) []int64 {
+	if up.Kind != "matrix" || sv.Kind != "matrix" || sv.Err != "" {
+		return nil
+	}
+	um := map[string]map[int64]float64{}
+	for _, s := range up.Series {
+		m := map[int64]float64{}
+		for _, p := range s.Pts {
+			m[p.T] = p.V
+		}
+		um[labelKey(s.Labels)] = m
+	}
+	seen := map[string]map[int64]bool{}
+	for _, s := range sv.Series {
+		k := labelKey(s.Labels)
+		m, ok := um[k]
+		if !ok || seen[k] != nil {
+			return nil
+		}
+		seen[k] = map[int64]bool{}
+		for _, p := range s.Pts {
+			v, ok := m[p.T]
+			if !ok || !feq(v, p.V) {
+				return nil
+			}
+			seen[k][p.T] = true
+		}
+	}
+	var miss []int64
+	for k, m := range um {
+		for t := range m {
+			if seen[k] == nil || !seen[k][t] {
+				miss = append(miss, t)
+			}
+		}
+	}
+	return miss
+}
+
+// hasInfSample: some series of the data set carries a +Inf / -Inf sample value
+func hasInfSample(ds *dataset) bool {
+	for _, s := range ds.Series {
+		for _, p := range s.Samples {
+			if math.IsInf(p.V, 0) {
+				return true
+			}
+		}
+	}
+	return false
+}
+
+// nanInsteadOf: same label sets and timestamps; values agree except where the server says NaN and upstream says
+// something else (at least once)
+func nanInsteadOf(up, sv result) bool {
+	if up.Kind != sv.Kind || sv.Err != "" || len(up.Series) != len(sv.Series) {
+		return false
+	}
+	um := map[string]rseries{}
+	for _, s := range up.Series {
+		um[labelKey(s.Labels)] = s
+	}
+	hit := false
+	for _, s := range sv.Series {
+		u, ok := um[labelKey(s.Labels)]
+		if !ok || len(u.Pts) != len(s.Pts) {
+			return false
+		}
+		for i, p := range s.Pts {
+			if p.T != u.Pts[i].T {
+				return false
+			}
+			if feq(p.V, u.Pts[i].V) {
+				continue
+			}
+			if !math.IsNaN(p.V) {
+				return false
+			}
+			hit = true
+		}
+	}
+	return hit
+}
 
 // staleCandidates returns the indices of the series that have a staleness marker inside the window of some
 // range-vector selector of the expression evaluated at t.
@@ -540,6 +681,16 @@ func explainWith(ds *dataset, e *exprCase, mode string, start, lastStep, step in
 		ex.Rules = []string{fAbsentOff}
 		return true, ex, nregex
 	}
+	if rw, hit := absentDupRewrite(e.Expr); hit && sv.Err == "" && mode == "instant" {
+		// both engines say "absent" (one element); only the derived label set differs the way today's code derives it
+		if orig := evalUp(e.Expr); orig.Err == "" && len(orig.Series) == 1 {
+			if up := evalUp(rw); up.Err == "" && cmpResults(up, sv) == "" {
+				ex.Rewritten = rw
+				ex.Rules = []string{fAbsentDup}
+				return true, ex, nregex
+			}
+		}
+	}
 	if rw, hit := absentNegRewrite(e.Expr, ds); hit && sv.Err == "" {
 		// constructive: the server answers exactly as upstream does when the selector matches nothing
 		if up := evalUp(rw); up.Err == "" && cmpResults(up, sv) == "" {
@@ -578,10 +729,30 @@ func explainWith(ds *dataset, e *exprCase, mode string, start, lastStep, step in
 		ex.Rules = addRule(ex.Rules, fResetsZero)
 		return true, ex, nregex
 	}
+	if strings.Contains(e.Expr, "holt_winters(") && hasInfSample(ds) && cmpResults(up, sv) != "" && nanInsteadOf(up, sv) {
+		// CalcHoltWinters answers NaN as soon as the window holds an infinite value; upstream computes with it
+		ex.Rules = addRule(ex.Rules, fHoltInf)
+		return true, ex, nregex
+	}
 	if mode == "range" && hasVectorVectorBinop(e.Expr) && cmpResults(up, sv) != "" && extraPointsOnly(up, sv) {
 		// the operator walks past the end of the exhausted series' rows into the next series of the chunk
 		ex.Rules = addRule(ex.Rules, fBinopNext)
 		return true, ex, nregex
+	}
+	if mode == "range" && hasMatrixSelector(e.Expr) && cmpResults(up, sv) != "" {
+		// staleness markers: the point of a step whose window holds a marker is lost
+		if miss := missingPoints(up, sv); len(miss) > 0 {
+			all := true
+			for _, t := range miss {
+				if len(staleCandidates(ds, target, t)) == 0 {
+					all = false
+				}
+			}
+			if all {
+				ex.Rules = addRule(ex.Rules, fStaleEnd)
+				return true, ex, nregex
+			}
+		}
 	}
 	if mode == "range" && hasMatrixSelector(e.Expr) && cmpResults(up, sv) != "" && trailingLoss(up, sv) {
 		ex.Rules = addRule(ex.Rules, fStepGtRange)
